@@ -99,6 +99,21 @@ Theorem c05_known_refuted :
                           rs_headers := [ (s2b "location", [s2b "/x"]); (s2b "connection", [s2b "close"]) ] |})).
 Proof. exact known_refuted. Qed.
 
+(** The class is exact: on EVERY member the truncated head goes on to the body-framing step as if
+    it were complete -- [len p] bytes consumed, the fields after the cut lost, a synthetic
+    "connection: close" added ([truncated_response]) -- so the answer is never "need more data". *)
+Theorem c05_known_class : forall c h p x,
+  wf_resp_head h -> (List.length (rh_fields h) <= 128)%nat ->
+  render_response_head h = p ++ x -> x <> [] -> KnownClass h p ->
+  call_try_response c p = deliver c (len p) (truncated_response h p).
+Proof. exact try_response_known. Qed.
+
+Theorem c05_known_class_fails : forall c h p x c',
+  wf_resp_head h -> (List.length (rh_fields h) <= 128)%nat ->
+  render_response_head h = p ++ x -> x <> [] -> KnownClass h p ->
+  call_try_response c p <> Ok (c', None).
+Proof. exact try_response_known_fails. Qed.
+
 (** 129 or more fields: an error as soon as the 129th field line is complete, whatever follows ... *)
 Theorem c05_limit : forall c h fs1 f fs2 any,
   wf_resp_head h -> rh_fields h = fs1 ++ f :: fs2 -> List.length fs1 = 128%nat ->
@@ -150,6 +165,8 @@ Print Assumptions c05_complete_ok.
 Print Assumptions c05_complete_plain.
 Print Assumptions c05_prefix.
 Print Assumptions c05_known_refuted.
+Print Assumptions c05_known_class.
+Print Assumptions c05_known_class_fails.
 Print Assumptions c05_limit.
 Print Assumptions c05_limit_complete.
 Print Assumptions c05_nonvacuous.
